@@ -283,6 +283,20 @@ func CheckKeyed(q dns.Question, tag string, resp *dns.Msg) (uint32, error) {
 		first = l[0]
 	}
 	exp := fakeup.BuildReply(lower, q.Qtype, q.Qclass, tag, meta.Serial, fakeup.ParseDirectives(first))
+	if resp.Truncated && !exp.Truncated {
+		// records were omitted to fit a size limit: what is left must be an in-order
+		// subsequence of what the upstream sent
+		if err := subseqRRs("answer", exp.Answer, resp.Answer); err != nil {
+			return meta.Serial, err
+		}
+		if err := subseqRRs("authority", exp.Ns, resp.Ns); err != nil {
+			return meta.Serial, err
+		}
+		if resp.Rcode != exp.Rcode {
+			return meta.Serial, fmt.Errorf("rcode %d, upstream sent %d", resp.Rcode, exp.Rcode)
+		}
+		return meta.Serial, nil
+	}
 	if err := sameRRs("answer", exp.Answer, resp.Answer, true); err != nil {
 		return meta.Serial, err
 	}
@@ -296,6 +310,24 @@ func CheckKeyed(q dns.Question, tag string, resp *dns.Msg) (uint32, error) {
 		return meta.Serial, fmt.Errorf("rcode %d, upstream sent %d", resp.Rcode, exp.Rcode)
 	}
 	return meta.Serial, nil
+}
+
+func subseqRRs(section string, exp, got []dns.RR) error {
+	j := 0
+	for i, g := range got {
+		k := fakeup.RRKey(g)
+		for j < len(exp) && fakeup.RRKey(exp[j]) != k {
+			j++
+		}
+		if j == len(exp) {
+			return fmt.Errorf("%s[%d] of the truncated response: %q is not (in order) among the records the upstream sent", section, i, k)
+		}
+		if g.Header().Ttl > exp[j].Header().Ttl {
+			return fmt.Errorf("%s[%d]: ttl %d larger than upstream ttl %d", section, i, g.Header().Ttl, exp[j].Header().Ttl)
+		}
+		j++
+	}
+	return nil
 }
 
 func noOpt(rrs []dns.RR) []dns.RR {
@@ -454,11 +486,13 @@ func mkQuery(id uint16, name string, qtype, qclass uint16, edns bool) []byte {
 }
 
 // procFailures turns what the proxy process left behind into violations shared by all E2E checks.
-func (c *Ctx) procFailures(res *proxyproc.Result, where string) {
+// Only crashes are reported here; a crash that happens after SIGTERM (orderly shutdown) is
+// C18's business and is reported only by checks that pass shutdownToo.
+func (c *Ctx) procFailures(res *proxyproc.Result, where string, shutdownToo ...bool) {
 	if res == nil {
 		return
 	}
-	if res.Panic != "" {
+	if res.Panic != "" && (res.DiedBeforeStop || (len(shutdownToo) > 0 && shutdownToo[0])) {
 		c.Violation("proxy-crash", "proxy crashed ("+where+"): "+res.Panic, map[string]any{"where": where, "panic": res.Panic})
 	}
 }
